@@ -57,8 +57,30 @@ func genC08(t *rapid.T) C08Case {
 		trees = append(trees, tr)
 		all.Kids = append(all.Kids, tr)
 	}
+	// one source uses a large unsorted list constant next to a small literal: operators that
+	// work on lists (at fold time too) must not rearrange the caller's constant
+	if rapid.IntRange(0, 2).Draw(t, "bigconst") == 0 {
+		tr := m.Op("or", m.Op("overlap", m.NamedConst("KBIG", nil), m.Const([]int64{3, 1, 2})), m.Op("in", m.Const(int64(5)), m.NamedConst("KBIG", nil)))
+		trees = append(trees, tr)
+		all.Kids = append(all.Kids, tr)
+		ns++
+	}
 	u := UniverseFor(t, all, false)
 	u.Stateless = drawStateless(t)
+	for i := range u.Consts {
+		if u.Consts[i].Name == "KBIG" {
+			big := make([]int64, 120)
+			for k := range big {
+				big[k] = int64((k*7919+13)%1009) + 10
+			}
+			u.Consts[i].Val.X = big
+			all.Walk(func(x *m.Node) {
+				if x.Kind == m.KConst && x.Name == "KBIG" {
+					x.Val = big
+				}
+			})
+		}
+	}
 	if u.RegMode == RegVarAndOp {
 		u.RegMode = RegGetOrReg // keep key assignment a function of the case
 	}
@@ -328,6 +350,14 @@ func checkC08(c C08Case, r *Rec) *Violation {
 			// given, not on which configs were compiled earlier in the process
 			other := eval.CopyConfig(cc)
 			other.StatelessOperators = append(other.StatelessOperators, "c_id", "c_sum", "c_not", "c_cat")
+			other.CostsMap["variable"] = 31337 // cost entries the shared config does not have
+			other.CostsMap["operator"] = -77
+			for i, v := range u.Vars {
+				other.CostsMap[v.Name] = float64(1000 - 37*i)
+			}
+			for _, n := range []string{"and", "or", "=", ">", "in", "c_id", "+"} {
+				other.CostsMap[n] = float64(len(n) * 111)
+			}
 			if a.Mut%2 == 0 {
 				other.OperatorMap["c_id"] = func(*eval.Ctx, []eval.Value) (eval.Value, error) { return int64(4242), nil }
 			}
